@@ -93,6 +93,7 @@ structure Voter where
   rawPc : Votes Nat := []
   prevPv : Votes Nat := []         -- the same for the previous round, as of the moment it was left
   prevPc : Votes Nat := []
+  lastPP : Option (Nat × Nat × Nat) := none   -- (set, round, block) of the primaryProposal it gossiped last
   hiRound : Nat := 0               -- GetHighestRoundAndSetID: the round of the latest finalisation (any set)
   hasPrev : Bool := false          -- the voter has left a round
   prevSet : Nat := 0               -- the authority set of that round
@@ -110,6 +111,7 @@ inductive Op where
   | best (v b : Nat)
   | pv (v : Nat)
   | pc (v : Nat)
+  | pp (v : Nat)
   | bv (stage v t r b : Nat)
   | chg (b : Nat) (ids : List Nat)
   | d (id v : Nat)
@@ -225,7 +227,8 @@ def stepPv (c : Cfg) (w : World) (i : Nat) : World :=
       | none => v.best
     let vote := capVote c w v v.best choice
     let stored := if primary = i then (match aget v.pv i with | some b => b | none => v.best) else vote
-    let v' := { v with pv := aset v.pv i stored, prevoted := true, rawPv := (i, vote) :: v.rawPv }
+    let v' := { v with pv := aset v.pv i stored, prevoted := true, rawPv := (i, vote) :: v.rawPv,
+                       lastPP := if primary = i then some (v.set, v.round, v.best) else v.lastPP }
     let w' := { setV w i v' with msgs := w.msgs ++ [some ⟨v.set, v.round, 0, i, vote⟩] }
     let o := s!"pv={showB vote}"
     -- (the handover rules are demanded of precommits only: a primary's block on another chain than the voter's best
@@ -254,6 +257,15 @@ def stepPc (c : Cfg) (w : World) (i : Nat) : World :=
         else if !extendsEstimate c w v vote then emitViol w' o true
         else emit w' o
 
+/-- the primaryProposal (stage 2) message a primary gossiped in its current round: its best block, not capped -/
+def stepPp (w : World) (i : Nat) : World :=
+  let v := getV w i
+  match v.lastPP with
+  | some (t, r, b) =>
+    if t = v.set && r = v.round then emit { w with msgs := w.msgs ++ [some ⟨t, r, 2, i, b⟩] } "ok"
+    else emit { w with msgs := w.msgs ++ [none] } "nopp"
+  | none => emit { w with msgs := w.msgs ++ [none] } "nopp"
+
 def stepBv (w : World) (stage j t r b : Nat) : World :=
   emit { w with msgs := w.msgs ++ [some ⟨t, r, stage, j, b⟩] } "ok"
 
@@ -273,7 +285,7 @@ def stepD (c : Cfg) (w : World) (id i : Nat) : World :=
     else if !(members w v.set).contains m.voter then emit w "notvoter"
     else if m.voter = i then emit w "self"
     else if !anc c.ps v.head m.block then emit w "notdesc"
-    else if m.stage = 0 then
+    else if m.stage = 0 ∨ m.stage = 2 then   -- a primary proposal goes to the prevote map (loadVote / the final store)
       let v := { v with rawPv := (m.voter, m.block) :: v.rawPv }
       if v.pve.contains m.voter then emit (setV w i v) "eq"
       else match aget v.pv m.voter with
@@ -325,6 +337,7 @@ def step (c : Cfg) (w : World) : Op → World
   | .best i b => stepBest c w i b
   | .pv i => stepPv c w i
   | .pc i => stepPc c w i
+  | .pp i => stepPp w i
   | .bv st j t r b => stepBv w st j t r b
   | .chg b ids => stepChg w b ids
   | .d id i => stepD c w id i
@@ -346,10 +359,13 @@ def run (c : Cfg) (ops : List Op) : Result :=
   let w0 : World := { vs := List.replicate c.n {}, sets := [List.range c.n] }
   let w := ops.foldl (step c) w0
   let safe := safeB c w
-  let model := String.intercalate ";" (w.outs.reverse ++ [if safe then "safe=1" else "safe=0"])
+  let cnt := String.intercalate "," (((List.range c.n).filter (fun i => !c.byz.contains i)).map (fun i =>
+    let v := getV w i
+    s!"{i}:{v.pv.length}.{v.pc.length}.{v.pve.length}.{v.pce.length}"))
+  let model := String.intercalate ";" (w.outs.reverse ++ [if safe then "safe=1" else "safe=0", s!"cnt={cnt}"])
   -- what the property demands: every decision inside the rule, and safety under a Byzantine minority
   let specSafe := if w.sets.all c.minority then "safe=1" else (if safe then "safe=1" else "safe=0")
-  let spec := String.intercalate ";" (w.spec.reverse ++ [specSafe])
+  let spec := String.intercalate ";" (w.spec.reverse ++ [specSafe, s!"cnt={cnt}"])
   let kf := if w.estViol && !w.otherViol then some "c22-prevote-ignores-estimate" else none
   ⟨model, spec, kf⟩
 
